@@ -863,6 +863,8 @@ func (filter *TrzszFilter) wrapOutput() {
 			if filter.options.EnableZmodem {
 				if zmodem := detectZmodem(buf); zmodem != nil {
 					_ = writeAll(filter.clientOut, buf)
+					// sendInput may stop the session as soon as it is visible, it needs the writers then
+					zmodem.logger, zmodem.serverIn, zmodem.clientOut = filter.logger, filter.serverIn, filter.clientOut
 					if filter.zmodem.CompareAndSwap(nil, zmodem) {
 						hideCursor(filter.clientOut)
 						filter.hidingCursor = true
